@@ -145,3 +145,114 @@ func checkArithmOperatorsKeptApart(p *Prog, r *Result, rule string) {
 		r.Bad(rule, "syntax.(Printer).arithmExprRecurse#writes operators", fd.Pos(), "no write of an operator followed by an operand found: the rule no longer sees the construct it is about")
 	}
 }
+
+// R01g: the parts of one word are printed back to back; a space written between two of them makes two words of one
+// (`echo $(a)<(b)` became `echo $(a) <(b)`: another argument list). A clause of Printer.wordPart that writes a space
+// when p.wantSpace asks for one (the process substitution does, to keep `< <(foo)` apart) may therefore only see that
+// request for the first part of a word: in Printer.wordParts, for every such part type, the loop stores
+// p.wantSpace = spaceNotRequired before printing a part of that type that is not the first (under `i > 0`).
+func checkNoSpaceInsideWord(p *Prog, r *Result, rule string) {
+	pkg := p.Pkg("syntax")
+	info := pkg.TypesInfo
+	part := p.FuncDecl("syntax", "Printer.wordPart")
+	parts := p.FuncDecl("syntax", "Printer.wordParts")
+	spaceFn := lookupFunc(pkg, "Printer.space")
+	notReq, _ := pkg.Types.Scope().Lookup("spaceNotRequired").(*types.Const)
+	if part == nil || parts == nil || spaceFn == nil || notReq == nil {
+		r.Fatalf("anchors Printer.wordPart / wordParts / space / spaceNotRequired not found")
+		return
+	}
+	// part types whose clause writes a space directly
+	var ts *ast.TypeSwitchStmt
+	ast.Inspect(part.Body, func(n ast.Node) bool {
+		if t, ok := n.(*ast.TypeSwitchStmt); ok && ts == nil {
+			ts = t
+		}
+		return true
+	})
+	if ts == nil {
+		r.Undecided(rule, "syntax.(Printer).wordPart#type switch", part.Pos(), "the type switch over the word part was not found")
+		return
+	}
+	var spaced []*types.TypeName
+	for _, st := range ts.Body.List {
+		cc := st.(*ast.CaseClause)
+		writes := false
+		for _, b := range cc.Body {
+			inspectNoLit(b, func(m ast.Node) bool {
+				if c, ok := m.(*ast.CallExpr); ok {
+					if callee := calleeOf(info, c); callee != nil && callee.Origin() == spaceFn {
+						writes = true
+					}
+				}
+				return true
+			})
+		}
+		if !writes {
+			continue
+		}
+		for _, e := range cc.List {
+			if pt, ok := info.TypeOf(e).(*types.Pointer); ok {
+				if nt := namedOf(pt.Elem()); nt != nil {
+					spaced = append(spaced, nt.Obj())
+				}
+			}
+		}
+	}
+	if len(spaced) == 0 {
+		r.Notef("%s: no clause of wordPart writes a space of its own", rule)
+		return
+	}
+	g := NewFGraph(info, parts.Body, nil)
+	for _, tn := range spaced {
+		key := fmt.Sprintf("syntax.(Printer).wordParts#a %s that is not the first part sees no request for a space", tn.Name())
+		ok := false
+		for _, b := range g.Blocks {
+			for _, nd := range b.Nodes {
+				as, isAs := nd.(*ast.AssignStmt)
+				if !isAs || len(as.Lhs) != 1 || len(as.Rhs) != 1 {
+					continue
+				}
+				if fv := selectorField(info, as.Lhs[0]); fv == nil || fv.Name() != "wantSpace" {
+					continue
+				}
+				if tv, has := info.Types[as.Rhs[0]]; !has || tv.Value == nil || tv.Value.ExactString() != notReq.Val().ExactString() {
+					continue
+				}
+				// under `i > 0` (or `i != 0`, `i >= 1`) and under a successful assertion to *T
+				underIdx := underEdges(g, b, func(e *FEdge) bool {
+					if e.Cond == nil || !e.Pol || e.Tag != nil {
+						return false
+					}
+					be, isBin := ast.Unparen(e.Cond).(*ast.BinaryExpr)
+					if !isBin {
+						return false
+					}
+					s := exprString(be)
+					return s == "i > 0" || s == "i != 0" || s == "i >= 1" || s == "0 < i"
+				})
+				asserts := false
+				ast.Inspect(parts.Body, func(m ast.Node) bool {
+					is, isIf := m.(*ast.IfStmt)
+					if !isIf || !(is.Body.Pos() <= as.Pos() && as.End() <= is.Body.End()) {
+						return true
+					}
+					ast.Inspect(is, func(k ast.Node) bool {
+						if ta, isTA := k.(*ast.TypeAssertExpr); isTA && ta.Type != nil {
+							if pt, isPtr := info.TypeOf(ta.Type).(*types.Pointer); isPtr && namedOf(pt.Elem()) != nil && namedOf(pt.Elem()).Obj() == tn {
+								asserts = true
+							}
+						}
+						return true
+					})
+					return true
+				})
+				if underIdx && asserts {
+					ok = true
+				}
+			}
+		}
+		r.Check(ok, rule, key, parts.Pos(), "wordParts stores p.wantSpace = spaceNotRequired before printing such a part when it is not the first",
+			fmt.Sprintf("the clause of wordPart for %s writes a space when p.wantSpace asks for one, and wordParts does not clear that request for a part that is not the first of its word: a space is printed in the middle of the word, which becomes two arguments", tn.Name()))
+	}
+}
